@@ -16,6 +16,7 @@ var intrinsicNames = map[string]bool{
 	"strconv.Itoa": true, "strconv.FormatInt": true, "strconv.FormatUint": true, "strconv.Quote": true,
 	"math.Float32bits": true, "math.Float32frombits": true, "math.Float64bits": true, "math.Float64frombits": true,
 	"strings.Clone": true, "bytes.Clone": true,
+	"bytes.IndexByte": true, "internal/bytealg.IndexByte": true, "internal/bytealg.IndexByteString": true, "strings.IndexByte": true,
 	"(*sync.Pool).Get": true, "(*sync.Pool).Put": true,
 	"(*sync.Mutex).Lock": true, "(*sync.Mutex).Unlock": true, "(*sync.Mutex).TryLock": true,
 	"(*sync.RWMutex).Lock": true, "(*sync.RWMutex).Unlock": true, "(*sync.RWMutex).RLock": true, "(*sync.RWMutex).RUnlock": true,
@@ -27,6 +28,9 @@ var intrinsicNames = map[string]bool{
 	"(*sync.WaitGroup).Add": true, "(*sync.WaitGroup).Done": true, "(*sync.WaitGroup).Wait": true,
 	"math/rand/v2.IntN": true, "math/rand/v2.Int": true, "math/rand.Intn": true,
 	"os.Getenv": true,
+	"errors.Is": true,
+	"internal/bytealg.MakeNoZero": true,
+	"internal/abi.NoEscape": true, "(*strings.Builder).copyCheck": true, "internal/abi.Escape": true,
 }
 
 func isIntrinsic(name string, fn *ssa.Function) bool {
@@ -93,6 +97,15 @@ func (e *Exec) intrinsic(name string, args []Value, fn *ssa.Function, fr *frame)
 		return Tuple{e.c64(0), &Iface{}}
 	case "os.Getenv":
 		return e.strLit("")
+	case "errors.Is":
+		return e.errorsIs(args[0], args[1], fr, 0)
+	case "internal/bytealg.MakeNoZero":
+		n := e.concretize(args[0].(*Term), 0, e.job.MaxAlloc)
+		return e.makeSlice(types.Typ[types.Uint8], e.c64(n), n, "MakeNoZero")
+	case "internal/abi.NoEscape", "internal/abi.Escape":
+		return args[0]
+	case "(*strings.Builder).copyCheck":
+		return nil
 	case "math.Float32bits", "math.Float32frombits", "math.Float64bits", "math.Float64frombits":
 		return args[0]
 	case "strings.Clone":
@@ -113,6 +126,29 @@ func (e *Exec) intrinsic(name string, args []Value, fn *ssa.Function, fr *frame)
 			}
 		}
 		return d
+	case "bytes.IndexByte", "internal/bytealg.IndexByte", "internal/bytealg.IndexByteString", "strings.IndexByte":
+		var base Loc
+		var off, ln *Term
+		switch x := args[0].(type) {
+		case *Slice:
+			base, off, ln = x.Base, x.Off, x.Len
+		case *Str:
+			if x.Opaque {
+				panic(unsupported{"IndexByte of opaque string"})
+			}
+			base, off, ln = x.Base, x.Off, x.Len
+		}
+		n := e.concretize(ln, 0, e.job.MaxAlloc)
+		d := args[1].(*Term)
+		res := e.c64(-1)
+		if n > 0 {
+			a := e.arrayAt(base)
+			for i := n - 1; i >= 0; i-- {
+				b := e.elemAt(a, tc.Add(off, e.c64(i))).(*Term)
+				res = tc.Ite(tc.Eq(b, d), e.c64(i), res)
+			}
+		}
+		return res
 	case "(*sync.Pool).Get":
 		p := e.ptrOf(args[0])
 		key := p.Obj
@@ -614,6 +650,8 @@ func (e *Exec) zz(name string, args []Value, fn *ssa.Function) Value {
 		}
 		o := e.newObject(a, nil, "zzverif.BytesSparse")
 		return &Slice{Base: Loc{Obj: o}, Off: e.c64(0), Len: e.c64(int64(n)), Cap: e.c64(int64(n))}
+	case "Symbolic":
+		return tc.True
 	case "Virtual":
 		n := args[0].(*Term)
 		if e.branch(tc.Slt(n, e.c64(0))) {
@@ -647,7 +685,7 @@ func (e *Exec) zz(name string, args []Value, fn *ssa.Function) Value {
 		// decision slot so that re-execution stays aligned
 		if e.pos < len(e.prefix) {
 			e.pos++
-			e.decisions = append(e.decisions, true)
+			e.decisions = append(e.decisions, 1)
 			e.assume(c)
 			return nil
 		}
@@ -659,7 +697,7 @@ func (e *Exec) zz(name string, args []Value, fn *ssa.Function) Value {
 		if a == Unsat {
 			panic(pathEnd{"assume-false"})
 		}
-		e.decisions = append(e.decisions, true)
+		e.decisions = append(e.decisions, 1)
 		e.assume(c)
 		return nil
 	case "Assert":
@@ -915,4 +953,51 @@ func (e *Exec) selectStmt(fr *frame, in *ssa.Select) Value {
 	}
 	c.buf = append(c.buf, e.get(fr, st.Send))
 	return mk(r.idx, false, -1, nil)
+}
+
+// errorsIs implements errors.Is without reflection: identity, an Is method, Unwrap() error.
+func (e *Exec) errorsIs(errv, targetv Value, fr *frame, depth int) Value {
+	tc := e.tc
+	err, _ := errv.(*Iface)
+	target, _ := targetv.(*Iface)
+	if err == nil || err.T == nil || target == nil || target.T == nil {
+		return tc.Bool((err == nil || err.T == nil) && (target == nil || target.T == nil))
+	}
+	if depth > 16 {
+		panic(unsupported{"errors.Is: chain too long"})
+	}
+	if types.Identical(err.T, target.T) {
+		if types.Comparable(err.T) {
+			if e.branch(e.equal(err.V, target.V, err.T)) {
+				return tc.True
+			}
+		}
+	}
+	ms := e.prog.MethodSets.MethodSet(err.T)
+	for i := 0; i < ms.Len(); i++ {
+		sel := ms.At(i)
+		if sel.Obj().Name() == "Is" {
+			if fn := e.prog.MethodValue(sel); fn != nil && fn.Signature.Params().Len() == 1 && fn.Signature.Results().Len() == 1 {
+				r := e.callFn(fn, []Value{err.V, target}, nil, fr)
+				if rt, ok := r.(*Term); ok && e.branch(rt) {
+					return tc.True
+				}
+			}
+		}
+	}
+	for i := 0; i < ms.Len(); i++ {
+		sel := ms.At(i)
+		if sel.Obj().Name() == "Unwrap" {
+			fn := e.prog.MethodValue(sel)
+			if fn == nil || fn.Signature.Params().Len() != 0 || fn.Signature.Results().Len() != 1 {
+				continue
+			}
+			if _, isSlice := fn.Signature.Results().At(0).Type().Underlying().(*types.Slice); isSlice {
+				panic(unsupported{"errors.Is: Unwrap() []error"})
+			}
+			r := e.callFn(fn, []Value{err.V}, nil, fr)
+			return e.errorsIs(r, targetv, fr, depth+1)
+		}
+	}
+	return tc.False
 }
